@@ -12,6 +12,7 @@ NOT_DECIDED = [
     "a rewrite that branches on `op` while preserving behaviour would violate CMP-1 (documented false-alarm source)",
 ]
 CONFIG_SENSITIVE = False
+DESUGAR = True
 
 CMP = "dewey::dewey_cmp"
 TEST = "dewey::dewey_test"
